@@ -228,6 +228,10 @@ func JWTSecurity(name string, fn ...func()) *expr.SchemeExpr {
 //	})
 func Security(args ...any) {
 	var dsl func()
+	if len(args) == 0 {
+		eval.TooFewArgError()
+		return
+	}
 	if d, ok := args[len(args)-1].(func()); ok {
 		args = args[:len(args)-1]
 		dsl = d
